@@ -177,6 +177,7 @@ type Cluster struct {
 	unreachKind int64
 	// replies still to be lost per callee (LoseReplies)
 	loseReply map[uint64]int
+	dead0     *grpc.ClientConn
 	// every gossip payload the pump has handed out, in order
 	gossipLog [][]byte
 }
@@ -258,13 +259,17 @@ func (t nodeTransport) call(id uint64, f func(*grpc.ClientConn) error) error {
 	if bad {
 		// the errors the real cluster pool (cluster/membership) returns for a peer it cannot call,
 		// plus a plain transport error; the kind rotates so that every kind is exercised
-		switch atomic.AddInt64(&t.c.unreachKind, 1) % 3 {
+		switch atomic.AddInt64(&t.c.unreachKind, 1) % 4 {
 		case 0:
 			return membership.ErrPeerNotFound
 		case 1:
 			return membership.ErrPeerDisabled
-		default:
+		case 2:
 			return errors.New("peer unreachable (injected)")
+		default:
+			// the pool still hands out a connection, but nobody listens behind it any more: the call itself
+			// has to fail (it does at once, unless it was told to wait for the peer to come back)
+			return f(t.c.deadConn())
 		}
 	}
 	t.from.connMu.Lock()
@@ -474,6 +479,19 @@ func (c *Cluster) nodesSnapshot() []*Node {
 		}
 	}
 	return out
+}
+
+// deadConn returns a client connection whose every dial attempt is refused.
+func (c *Cluster) deadConn() *grpc.ClientConn {
+	c.mu.Lock()
+	defer c.mu.Unlock()
+	if c.dead0 == nil {
+		c.dead0, _ = grpc.DialContext(context.Background(), "dead-peer",
+			grpc.WithContextDialer(func(ctx context.Context, _ string) (net.Conn, error) {
+				return nil, errors.New("connect: connection refused (injected)")
+			}), grpc.WithInsecure())
+	}
+	return c.dead0
 }
 
 // LoseReplies makes the next n successful calls to node id fail at the caller after the
